@@ -277,26 +277,35 @@ def build(case):
     sig = float(Fraction(case["sigma"]))
     lsig = float(Fraction(case.get("line_sigma", "1/2")))
     init = None
+    init_arg = None
     if case.get("init"):
         init = [[float(Fraction(v)) for v in r] for r in case["init"]]
+        # what the caller passes: a list, or an ndarray (of exactly the solution dtype / of the other dtype) that the
+        # caller keeps using -- it is overwritten right after the constructor returns (see the end of build)
+        form = case.get("init_form", "list")
+        init_arg = init
+        if form == "same":
+            init_arg = np.array(init, dtype=D[sd])
+        elif form == "other":
+            init_arg = np.array(init, dtype=D["f32" if sd == "f64" else "f64"])
     x0arg = None if init is not None else x0
     info = {"arch": arch, "x0": None if init is not None else np.array(x0, dtype=D[sd]), "init": init,
             "barg": barg, "es": None, "shadow": None, "sigma": sig, "line_sigma": lsig}
     sdt = D[sd]
     if kind == "gauss":
-        em = E.GaussianEmitter(arch, sigma=sig, x0=x0arg, initial_solutions=init, bounds=barg, batch_size=batch,
+        em = E.GaussianEmitter(arch, sigma=sig, x0=x0arg, initial_solutions=init_arg, bounds=barg, batch_size=batch,
                                seed=seed)
         info.update(shadow=Shadow(seed), scale=np.array(sig, dtype=sdt), op="gaussian", ek="gaussian")
     elif kind == "ga_gauss":
-        em = E.GeneticAlgorithmEmitter(arch, x0=x0arg, initial_solutions=init, bounds=barg, batch_size=batch,
+        em = E.GeneticAlgorithmEmitter(arch, x0=x0arg, initial_solutions=init_arg, bounds=barg, batch_size=batch,
                                        operator="gaussian", operator_kwargs={"sigma": sig, "seed": seed})
         info.update(shadow=Shadow(seed), scale=sig, op="gaussian", ek="gaGaussian")
     elif kind == "iso":
-        em = E.IsoLineEmitter(arch, iso_sigma=sig, line_sigma=lsig, x0=x0arg, initial_solutions=init, bounds=barg,
-                              batch_size=batch, seed=seed)
+        em = E.IsoLineEmitter(arch, iso_sigma=sig, line_sigma=lsig, x0=x0arg, initial_solutions=init_arg,
+                              bounds=barg, batch_size=batch, seed=seed)
         info.update(shadow=Shadow(seed), scale=sdt(sig), lscale=sdt(lsig), op="isoline", ek="isoLine")
     elif kind == "ga_iso":
-        em = E.GeneticAlgorithmEmitter(arch, x0=x0arg, initial_solutions=init, bounds=barg, batch_size=batch,
+        em = E.GeneticAlgorithmEmitter(arch, x0=x0arg, initial_solutions=init_arg, bounds=barg, batch_size=batch,
                                        operator="isoline",
                                        operator_kwargs={"iso_sigma": sig, "line_sigma": lsig, "seed": seed})
         info.update(shadow=Shadow(seed), scale=sig, lscale=lsig, op="isoline", ek="gaIsoLine")
@@ -304,7 +313,7 @@ def build(case):
         line = kind.startswith("gop_line")
         mg = kind.endswith("_mg")
         sg = float(Fraction(case.get("sigma_g", "1/4")))
-        em = E.GradientOperatorEmitter(arch, sigma=sig, sigma_g=sg, x0=x0arg, initial_solutions=init,
+        em = E.GradientOperatorEmitter(arch, sigma=sig, sigma_g=sg, x0=x0arg, initial_solutions=init_arg,
                                        line_sigma=lsig, measure_gradients=mg, normalize_grad=case.get("norm", False),
                                        operator_type="iso_line_dd" if line else "isotropic", bounds=barg,
                                        batch_size=batch, seed=seed)
@@ -340,6 +349,9 @@ def build(case):
     else:
         raise ValueError(kind)
     info["em"] = em
+    if isinstance(init_arg, np.ndarray):
+        # the caller goes on using its own array: what the emitter was configured with must not follow
+        init_arg[...] = -987.25
     return info
 
 
@@ -442,6 +454,33 @@ def search_parents(out_rows, cur, noise, lo, hi, sd):
     return idx, None
 
 
+def expected_init_rows(init, sd, flo, fhi):
+    """the configured initial_solutions, cast to the solution dtype and clipped to the bounds (exact rationals)"""
+    want = []
+    for r in init:
+        row = []
+        for k, v in enumerate(r):
+            v = round_frac(Fraction(v), sd)
+            if flo[k] is not None and v < flo[k]:
+                v = flo[k]
+            if fhi[k] is not None and v > fhi[k]:
+                v = fhi[k]
+            row.append(v)
+        want.append(row)
+    return want
+
+
+def scribble(out, ctx):
+    """The caller owns the batch ask() handed out and may rewrite it in place (rescale, round, reuse as scratch).
+    Returns a private copy for the rest of the iteration and overwrites the original with garbage; whatever the
+    emitter is configured with must not follow (checked by every later ask on an empty archive)."""
+    keep = np.array(out, copy=True)
+    if isinstance(out, np.ndarray) and out.flags.writeable and out.size:
+        out[...] = 12345.5
+        ctx.count("ask:returned-batch-overwritten")
+    return keep
+
+
 def clip_ask_step(info, case, drv, where, ctx, dqd=False):
     """One ask (or ask_dqd of GradientOperatorEmitter) of a clipping emitter, checked against oracle and model."""
     em, arch = info["em"], info["arch"]
@@ -464,14 +503,18 @@ def clip_ask_step(info, case, drv, where, ctx, dqd=False):
         nrows = 0 if dqd else len(init)
     else:
         nrows = batch
+    flo = [None if v == -np.inf else fr(v) for v in lo]
+    fhi = [None if v == np.inf else fr(v) for v in hi]
+    if was_empty and init is not None and not dqd and isinstance(out, np.ndarray) and out.shape == (nrows, dim) \
+            and np.all(np.isfinite(out)) and [frow(r) for r in out] != expected_init_rows(init, sd, flo, fhi):
+        return out, Failure("oracle", f"{where}: empty archive: returned rows {out.tolist()} are not the configured "
+                            f"initial_solutions {init} (cast to the solution dtype, clipped to the bounds)")
     f = oracle_array(where, out, nrows, dim, sd, lo, hi)
     if f is not None:
         if f.key == "dtype":
             f.key = "D13-askdqd-empty-dtype" if (dqd and was_empty and init is not None) else "D12"
         return out, f
     out_rows = [frow(r) for r in out]
-    flo = [None if v == -np.inf else fr(v) for v in lo]
-    fhi = [None if v == np.inf else fr(v) for v in hi]
     drv.ask("setb " + ",".join(lo_tok(v) for v in lo) + " " + ",".join(hi_tok(v) for v in hi))
     x0tok = "none" if info["x0"] is None else rowtok(frow(info["x0"]))
     drv.ask(f"cfg kind={op} dim={dim} batch={batch} x0={x0tok} dqd={1 if dqd else 0}")
@@ -485,20 +528,12 @@ def clip_ask_step(info, case, drv, where, ctx, dqd=False):
     # ---- initial solutions path
     if was_empty and init is not None:
         if not dqd:
-            want = []
-            for r in init:
-                row = []
-                for k, v in enumerate(r):
-                    v = round_frac(Fraction(v), sd)
-                    if flo[k] is not None and v < flo[k]:
-                        v = flo[k]
-                    if fhi[k] is not None and v > fhi[k]:
-                        v = fhi[k]
-                    row.append(v)
-                want.append(row)
+            want = expected_init_rows(init, sd, flo, fhi)
             if out_rows != want:
                 return out, Failure("oracle", f"{where}: empty archive: returned rows are not the configured "
-                                    f"initial_solutions clipped to the bounds")
+                                    f"initial_solutions clipped to the bounds: got "
+                                    f"{[[float(v) for v in r] for r in out_rows]}, configured (clipped) "
+                                    f"{[[float(v) for v in r] for r in want]}")
         m = parse_rows(drv.ask("ask idx=- idx2=- lines=- noise"))
         if m != out_rows:
             return out, Failure("corr", f"{where}: initial_solutions path impl={out_rows} model={m}")
@@ -690,10 +725,12 @@ def run_case(case, ctx):
                 continue
             # ---- one ask/tell iteration
             asks = []
+            noadd = bool(op.get("noadd"))   # the evaluation "failed": nothing is inserted, nothing is told
             if kind in CLIP_KINDS + ISO_KINDS:
                 out, f = clip_ask_step(info, case, drv, where + " ask", ctx)
                 if f is not None:
                     return f
+                out = scribble(out, ctx)
                 asks.append((info["ek"], out))
             elif kind in GOP_KINDS:
                 p, f = clip_ask_step(info, case, drv, where + " ask_dqd", ctx, dqd=True)
@@ -701,7 +738,10 @@ def run_case(case, ctx):
                     return f
                 asks.append(("gopAskDqd", p))
                 obj, meas = evaluate(p)
-                add_info = arch.add(p, obj, meas) if len(p) else {"status": np.zeros(0), "value": np.zeros(0)}
+                if len(p) and not noadd:
+                    add_info = arch.add(p, obj, meas)
+                else:
+                    add_info = {"status": np.zeros(len(p)), "value": np.zeros(len(p))}
                 jac = rng_j.integers(-4, 5, size=(len(p), 3, dim)).astype(np.float64) / 4
                 em.tell_dqd(p, obj, meas, jac.copy(), add_info)
                 was_empty = bool(arch.empty)
@@ -712,10 +752,22 @@ def run_case(case, ctx):
                 except Exception as ex:  # pylint: disable=broad-except
                     return Failure("oracle", f"{where} ask: raised {type(ex).__name__}: {str(ex)[:80]}")
                 nrows = len(info["init"]) if (was_empty and info["init"] is not None) else batch
+                flo = [None if v == -np.inf else fr(v) for v in lo]
+                fhi = [None if v == np.inf else fr(v) for v in hi]
+                init_path = was_empty and info["init"] is not None
+                if init_path and isinstance(out, np.ndarray) and out.shape == (nrows, dim) and \
+                        np.all(np.isfinite(out)) and \
+                        [frow(r) for r in out] != expected_init_rows(info["init"], sd, flo, fhi):
+                    return Failure("oracle", f"{where} ask: empty archive: returned rows {out.tolist()} are not the "
+                                   f"configured initial_solutions {info['init']} (cast to the solution dtype, clipped "
+                                   f"to the bounds)")
                 f = oracle_array(where + " ask", out, nrows, dim, sd, lo, hi)
                 if f is not None:
                     f.key = "D13" if f.key in ("dtype", "bounds") else f.key
                     return f
+                if init_path:
+                    ctx.count("ask:initial_solutions")
+                out = scribble(out, ctx)
                 asks.append(("gopAskMeasureGrads" if info["mg"] else "gopAsk", out))
             elif kind in ES_KINDS:
                 out, f = es_ask_step(info, case, drv, where + " ask", ctx)
@@ -748,7 +800,9 @@ def run_case(case, ctx):
             # evaluate, add, tell
             out = asks[-1][1]
             obj, meas = evaluate(out)
-            if len(out):
+            if noadd:
+                ctx.count("iter:nothing-inserted")
+            elif len(out):
                 add_info = arch.add(out, obj, meas)
                 try:
                     em.tell(out, obj, meas, add_info)
@@ -771,9 +825,10 @@ def dy(rng, lo=-8, hi=8, den=8):
     return f"{rng.randint(lo, hi)}/{den}"
 
 
-def gen_ops(rng, state, dim, n_iter, kind):
+def gen_ops(rng, state, dim, n_iter, kind, init=False):
     ops = []
     many = lambda n: {"op": "ext", "rows": [[dy(rng) for _ in range(dim)] for _ in range(n)]}
+    clipping = kind in CLIP_KINDS + ISO_KINDS + GOP_KINDS
     if state == "one":
         ops.append(many(1))
     elif state == "many":
@@ -781,13 +836,22 @@ def gen_ops(rng, state, dim, n_iter, kind):
     elif state == "cleared":
         ops.append(many(rng.randint(2, 8)))
         ops.append({"op": "clear"})
+    if init and state in ("empty", "cleared"):
+        # the first batch is not inserted (failed evaluation / retry): the archive is still empty at the next ask
+        ops.append({"op": "iter", "noadd": True})
     for _ in range(n_iter):
         r = rng.random()
         if r < 0.12:
             ops.append(many(rng.randint(1, 4)))
         elif r < 0.18:
             ops.append({"op": "clear"})
-        ops.append({"op": "iter"})
+        if clipping and rng.random() < 0.1:
+            ops.append({"op": "iter", "noadd": True})
+        else:
+            ops.append({"op": "iter"})
+    if init:
+        # empty again after clear(): the configured initial solutions must come back, every time
+        ops += [{"op": "clear"}, {"op": "iter", "noadd": True}, {"op": "iter"}, {"op": "clear"}, {"op": "iter"}]
     return ops
 
 
@@ -825,8 +889,11 @@ def make_gen(points, n_iter_lo, n_iter_hi):
             zero = rng.random() < 0.35
             case["sigma"] = "0" if zero else rng.choice(["1/4", "1/2", "1/64", "3/10", "2"])
             case["line_sigma"] = "0" if zero else rng.choice(["1/2", "1/5", "1"])
-            if rng.random() < 0.25:
+            if rng.random() < 0.3:
                 case["init"] = [[dy(rng, -12, 12) for _ in range(dim)] for _ in range(rng.randint(1, 4))]
+                # handed over as an ndarray of exactly the solution dtype (most often), a list, or an ndarray of
+                # the other dtype; ndarrays are overwritten by the "caller" after construction
+                case["init_form"] = rng.choice(["same", "same", "same", "list", "other"])
             if kind in GOP_KINDS:
                 case["sigma_g"] = rng.choice(["1/4", "1", "8"])
                 case["norm"] = rng.random() < 0.5
@@ -864,7 +931,7 @@ def make_gen(points, n_iter_lo, n_iter_hi):
             # the mean of the CMA family is a convex combination of in-bounds parents and stays in the slab; the
             # gradient step of OpenAI-ES may leave it, after which ask() legitimately takes arbitrarily long
             n_iter = 1 if kind == "openai_es" else min(n_iter, 3)
-        case["ops"] = [{"op": "cfg", "tag": tag}] + gen_ops(rng, s, dim, n_iter, kind)
+        case["ops"] = [{"op": "cfg", "tag": tag}] + gen_ops(rng, s, dim, n_iter, kind, init=bool(case.get("init")))
         return case
 
     return gen
@@ -969,11 +1036,15 @@ def run_group(ctx, kinds):
     quick = ctx.quick
     lo_it, hi_it = (5, 6) if quick else (6, 30)
     rc = lambda case: run_case(case, ctx)
-    warm_up([k for k in kinds if k != "bounds"])
+    warm_up([k for k in kinds if k not in ("bounds", "pycma_shared")])
     for kind in kinds:
         if kind == "bounds":
             ctx.explore("bounds", gen_bounds_case, lambda c: run_bounds_case(c, ctx), ctx.n(60, 2000),
                         time_budget=3 if quick else 20)
+            continue
+        if kind == "pycma_shared":
+            ctx.explore("pycma_shared", gen_shared_case, lambda c: run_shared_case(c, ctx), ctx.n(12, 400),
+                        time_budget=3 if quick else 40)
             continue
         bounds = BOUNDS_ES if kind in ES_KINDS else (["none"] if kind in GAE_KINDS else BOUNDS_CLIP)
         tq, tt = BUDGET[kind]
@@ -986,8 +1057,8 @@ def run_group(ctx, kinds):
 
 
 # (quick, thorough) seconds per stratum; one stratum per emitter kind (stratum name = kind)
-BUDGET = {k: (2.5, 60) for k in CLIP_KINDS + ISO_KINDS}
-BUDGET.update({k: (3, 60) for k in GOP_KINDS})
+BUDGET = {k: (3, 60) for k in CLIP_KINDS + ISO_KINDS}
+BUDGET.update({k: (4, 60) for k in GOP_KINDS})
 BUDGET.update({k: (2, 30) for k in GAE_KINDS})
 BUDGET.update({"cma_es": (6, 200), "sep_cma_es": (6, 200), "lm_ma_es": (4, 110), "openai_es": (3, 90),
                "pycma_es": (4, 110)})
@@ -997,8 +1068,82 @@ GROUPS = [
     ["gop_iso", "gop_iso_mg", "gop_line", "gop_line_mg", "gae_j32", "gae_j64"],
     ["cma_es"],
     ["sep_cma_es"],
-    ["lm_ma_es", "openai_es", "pycma_es"],
+    ["lm_ma_es", "openai_es", "pycma_es", "pycma_shared"],
 ]
+
+
+# --------------------------------------------------------------------------
+# two pycma emitters configured from ONE es_kwargs dict (shape / bounds / dtype of every ask, past a restart)
+
+
+def gen_shared_case(rng):
+    dim = rng.choice([2, 3])
+    b1, b2 = rng.sample(["box", "tight", "none", "onesided", "nondyadic"], 2)
+    batch1 = rng.choice([3, 4, 6])
+    batch2 = rng.choice([b for b in (2, 5, 7) if b != batch1])
+    sd, md = rng.choice(DTYPES)
+    case = {"kind": "pycma_shared", "sd": sd, "md": md, "dim": dim, "b": [b1, b2], "batch": [batch1, batch2],
+            "seed": [rng.randrange(1 << 30), rng.randrange(1 << 30)], "aseed": rng.randrange(1 << 30),
+            "restart": [rng.choice([1, 2, 2]), rng.choice([2, 3, "basic"])],
+            "opts": rng.choice([{"verbose": -9}, {"tolx": 1e-12}, {"CMA_active": False, "verbose": -9}])}
+    case["ops"] = [{"op": "cfg", "tag": f"shared/{sd}/{md}/{dim}/{b1}/{b2}/{batch1}/{batch2}/{case['seed'][0]}"}] + \
+        [{"op": "iter"} for _ in range(rng.randint(4, 7))]
+    return case
+
+
+def run_shared_case(case, ctx):
+    from ribs.emitters import EvolutionStrategyEmitter
+    warnings.simplefilter("ignore")
+    sd, md, dim = case["sd"], case["md"], case["dim"]
+    shared = {"opts": dict(case["opts"])}     # one dict object for both emitters, as a caller's config would be
+    ems = []
+    try:
+        for j in range(2):
+            arch = mk_archive("grid", dim, sd, md, case["aseed"] + j)
+            barg, x0 = bounds_layout(case["b"][j], dim)
+            sig = 1 / 128 if case["b"][j] == "tight" else 0.25
+            em = EvolutionStrategyEmitter(arch, x0=x0, sigma0=sig, es="pycma_es", es_kwargs=shared, bounds=barg,
+                                          batch_size=case["batch"][j], seed=case["seed"][j], ranker="2imp",
+                                          restart_rule=case["restart"][j])
+            ems.append((em, arch, barg))
+    except Exception as ex:  # pylint: disable=broad-except
+        return Failure("oracle", f"constructor raised {type(ex).__name__}: {str(ex)[:100]}")
+    drv = Driver("emit")
+    try:
+        for j, (em, arch, barg) in enumerate(ems):
+            f = check_bounds_parse(drv, barg, dim, em.lower_bounds, em.upper_bounds, sd, f"emitter {j} constructor")
+            if f is not None:
+                return f
+        for step, op in enumerate(case["ops"]):
+            if op["op"] != "iter":
+                continue
+            for j, (em, arch, barg) in enumerate(ems):
+                where = f"op#{step} iter emitter {j} (batch_size {case['batch'][j]}, bounds {case['b'][j]}) ask"
+                r0 = em.restarts
+                try:
+                    out = timed(em.ask)
+                except AskTimeout:
+                    return Failure("oracle", f"{where}: ask() did not return within {ASK_TIMEOUT} s")
+                except Exception as ex:  # pylint: disable=broad-except
+                    return Failure("oracle", f"{where}: raised {type(ex).__name__}: {str(ex)[:80]}")
+                f = oracle_array(where, out, case["batch"][j], dim, sd, em.lower_bounds, em.upper_bounds)
+                if f is not None:
+                    return f
+                dm = dtype_model(drv, "evolutionStrategy", sd, md, "f64")
+                if dm["rep"] != ("f32" if out.dtype == np.float32 else "f64"):
+                    return Failure("corr", f"{where}: dtype impl={out.dtype} model={dm['rep']}")
+                obj, meas = evaluate(out)
+                try:
+                    em.tell(out, obj, meas, arch.add(out, obj, meas))
+                except Exception as ex:  # pylint: disable=broad-except
+                    ctx.count(f"tell-raised:pycma_shared:{type(ex).__name__}")
+                    return None
+                if em.restarts != r0:
+                    ctx.count(f"shared:restart-of-emitter-{j}")
+            ctx.count("iter:pycma_shared")
+        return None
+    finally:
+        drv.close()
 
 
 def run(ctx):
@@ -1079,4 +1224,6 @@ def run(ctx):
 def replay(ctx, case):
     if "args" in case:
         return run_bounds_case(case, ctx)
+    if case.get("kind") == "pycma_shared":
+        return run_shared_case(case, ctx)
     return run_case(case, ctx)
